@@ -13,8 +13,11 @@ MODELS = []       # (compiled regex on normalised callee, handler, description)
 DESCRIPTIONS = []
 
 
-def model(pattern, desc):
+def model(pattern, desc, force=False):
+    """force=True: the model replaces a body that exists in the MIR dump (repo code that cannot be executed
+    symbolically, e.g. conversions that go through strings); listed as an assumption of the jobs that use it."""
     def deco(fn):
+        fn.force = force
         MODELS.append((re.compile(pattern), fn))
         DESCRIPTIONS.append("%s :: %s" % (pattern, desc))
         return fn
@@ -23,6 +26,7 @@ def model(pattern, desc):
 
 def canon(callee):
     """normalised callee path; `BInt::<3>::f` and `<impl BInt<3>>::f` are the same function"""
+    callee = re.sub(r"^num_bigint::BigInt::(\w+)$", r"<impl BigInt>::\1", callee.strip())
     n = norm_ty(callee)
     n = re.sub(r"^(BInt|BUint)::<(\d+)>::(\w+)$", r"<impl \1<\2>>::\3", n)
     return n
@@ -398,12 +402,18 @@ def m_from_digits(interp, path, args, ret_ty, callee):
     return IntV(interp.wrap(t, ty), ty)
 
 
-@model(r"<impl (BUint<\d+>|BInt<\d+>)>::(sqrt|cbrt)$|<impl (BUint<\d+>|BInt<\d+>)>::nth_root$",
+@model(r"<impl (BUint<\d+>|BInt<\d+>)>::(sqrt|cbrt)$|<impl (BUint<\d+>|BInt<\d+>)>::nth_root$|"
+       r"^<(BUint<\d+>|BInt<\d+>) as Roots>::(sqrt|cbrt|nth_root)$|^<impl BigInt>::(sqrt|cbrt|nth_root)$",
        "floor integer root of a non-negative value (fresh variable r with r^n <= x < (r+1)^n); negative input "
        "panics for even n")
 def m_root(interp, path, args, ret_ty, callee):
-    ty = int_ty_of_path(callee)
-    x = args[0].term
+    cn = canon(callee)
+    if cn.startswith("<impl BigInt>::"):
+        ty = "BigInt"
+    else:
+        mt = re.search(r"(BUint<\d+>|BInt<\d+>)", cn)
+        ty = mt.group(1)
+    x = deref(interp, path, args[0]).term
     if callee.endswith("sqrt"):
         n = 2
     elif callee.endswith("cbrt"):
@@ -412,6 +422,21 @@ def m_root(interp, path, args, ret_ty, callee):
         n = concrete(args[1].term)
         if n is None or n < 1 or n > 4:
             raise Refuse("nth_root with symbolic or large degree")
+    cx = concrete(x)
+    if cx is not None:
+        if cx < 0 and n % 2 == 0:
+            return [Outcome(path, "panic", msg="root of negative")]
+        mag = abs(cx)
+        lo_, hi_ = 0, 1
+        while hi_ ** n <= mag:
+            hi_ *= 2
+        while lo_ + 1 < hi_:
+            mid = (lo_ + hi_) // 2
+            if mid ** n <= mag:
+                lo_ = mid
+            else:
+                hi_ = mid
+        return IntV(lo_ if cx >= 0 else -lo_, ty)
     interp.fresh = getattr(interp, "fresh", 0) + 1
     r = z3.Int("root%d_%d" % (n, interp.fresh))
 
@@ -435,6 +460,55 @@ def m_root(interp, path, args, ret_ty, callee):
                 interp.assume(p, z3.And(r >= 0, pw(r, n) <= -x, -x < pw(r + 1, n)))
                 outs.append(Outcome(p, "ret", IntV(-r, ty)))
     return outs
+
+
+# ---------------------------------------------------------------- num_bigint::BigInt as an unbounded integer
+@model(r"^<BigInt as From<(I\d+|U\d+)>>::from$",
+       "REPO conversion I192/I256/.. -> num_bigint::BigInt (implemented through a decimal string): modelled as exact",
+       force=True)
+def m_bigint_from(interp, path, args, ret_ty, callee):
+    v = args[0]
+    while v.kind == "struct":
+        v = v.fields[0]
+    return IntV(v.term, "BigInt")
+
+
+@model(r"^<(I\d+|U\d+) as TryFrom<BigInt>>::try_from$",
+       "REPO conversion num_bigint::BigInt -> I192/I256/.. (through to_signed_bytes_le / from_le_slice): modelled as "
+       "Ok(v) iff v fits the target, else Err(Overflow)", force=True)
+def m_bigint_try_into(interp, path, args, ret_ty, callee):
+    m = re.match(r"^<([IU])(\d+) as", canon(callee))
+    bits = int(m.group(2))
+    ty = ("BInt<%d>" if m.group(1) == "I" else "BUint<%d>") % (bits // 64)
+    x = args[0].term
+    ok = in_range(x, ty)
+    wrapper = m.group(1) + m.group(2)
+    err = EnumV("Parse%sError" % wrapper, 0, {0: []})
+    try:
+        err = EnumV("Parse%sError" % wrapper, interp.variant_index("Parse%sError" % wrapper, "Overflow"), {})
+        err.variants[concrete(err.discr)] = []
+    except Exception:
+        pass
+    return EnumV(ret_ty, z3.If(ok, 0, 1), {0: [StructV(wrapper, [IntV(x, ty)])], 1: [err]})
+
+
+@model(r"^<BigInt as Mul>::mul$", "exact product")
+def m_bigint_mul(interp, path, args, ret_ty, callee):
+    return IntV(args[0].term * args[1].term, "BigInt")
+
+
+@model(r"^<BigInt as Pow<u32>>::pow$", "exact power with a concrete exponent")
+def m_bigint_pow(interp, path, args, ret_ty, callee):
+    e = concrete(args[1].term)
+    if e is None or e > 64:
+        raise Refuse("BigInt::pow with symbolic or large exponent")
+    c = concrete(args[0].term)
+    if c is not None:
+        return IntV(c ** e, "BigInt")
+    t = zint(1)
+    for _ in range(e):
+        t = t * args[0].term
+    return IntV(t, "BigInt")
 
 
 # ---------------------------------------------------------------- Option / Result / Try
